@@ -85,6 +85,14 @@ def translate_source():
     except Exception as e:
         open(out4, 'w').write('/-! source-level translation of types.py failed on this tree -/\n')
         status['Types'] = 'untranslatable: translator failed (' + type(e).__name__ + ')'
+    # and the serial back end (server_tty.py)
+    out5 = os.path.join(LEAN, 'UbxModel', 'Gen', 'SrcTty.lean')
+    try:
+        r = sh([PY, os.path.join(ROOT, 'tools', 'pysrc2lean_tty.py'), REPO, out5], timeout=120)
+        status['Tty'] = r.stdout.strip().splitlines()[-1]
+    except Exception as e:
+        open(out5, 'w').write('/-! source-level translation of server_tty.py failed on this tree -/\n')
+        status['Tty'] = 'untranslatable: translator failed (' + type(e).__name__ + ')'
     return status
 
 
@@ -96,6 +104,7 @@ SRC_THEOREMS = {
     'CfgKeyData': ['key_bits', 'key_group', 'key_item', 'key_bytes', 'key_header'],
     'CfgItem': ['cfg_pack_value', 'cfg_pack_keyid', 'cfg_pack', 'cfg_unpack_value', 'cfg_unpack', 'cfg_from_key'],
     'Types': ['item_pack', 'item_unpack', 'fields_pack', 'fields_unpack'],
+    'Tty': ['tty_receive', 'tty_receive_closed', 'tty_transmit', 'tty_flush_input', 'tty_recover', 'scan_loop', 'tty_scan'],
     'Server': ['srv_check_poll', 'srv_check_ack_nak', 'srv_check_mga', 'srv_send', 'srv_wait', 'srv_set', 'srv_set_mga',
                'srv_set_mga_other_class', 'srv_fire_and_forget', 'srv_set_retries', 'srv_set_retry_delay', 'srv_poll'],
 }
@@ -107,6 +116,7 @@ TRANSFERS = {   # module -> (classes it needs, theorems)
     'TransferNmea': (['NmeaParser'], ['src_nmea_counts_exactly']),
     'TransferCfg': (['CfgItem', 'CfgKeyData'], ['src_item_roundtrip', 'src_unpack_dichotomy', 'src_pack_rejects_ids']),
     'TransferTypes': (['Types'], ['generated_tables_known', 'src_decoded_as_prescribed', 'src_encode_after_decode']),
+    'TransferTty': (['Tty', 'UbxParser', 'NmeaParser'], ['src_scan_verdict', 'src_scan_time', 'src_tty_transmit', 'src_tty_recover']),
     'TransferServer': (['Server', 'UbxParser'], ['src_set_returns_bounded', 'src_set_mga_returns_bounded', 'src_poll_returns_bounded', 'src_set_result',
                                                  'src_poll_result', 'src_set_kth', 'src_set_like_fresh', 'src_poll_like_fresh', 'src_poll_all_same']),
 }
